@@ -655,6 +655,28 @@ def stepWHuge (toks : List String) : Option (List String) := do
   let handed := (r.1.map (·.res)).foldl (· + ·) 0
   some (showExchs r.1 ++ showRes okText r.2 ++ [s!"input={U32 + k + t} handed={handed}"])
 
+/-- `composite wbig`: a vectored writing future over `n` buffers (2–4 `&'static [u8]`) of `size`
+bytes each (`size < 2^31`, so every buffer reports its true length) whose TOTAL may exceed 4 GiB: the
+continuation state (`skip: u64`, src/io/mod.rs:600-660; src/net.rs:1440-1500) has to count past
+2^32. -/
+def stepWBig (toks : List String) : Option (List String) := do
+  let fut ← findKv "fut" toks
+  let n ← (findKv "n" toks).bind parseU64
+  let size ← (findKv "size" toks).bind parseU64
+  let ks ← (findKv "ks" toks).bind (parseList parseU64)
+  if n < 2 ∨ n > 4 ∨ size = 0 ∨ size ≥ 2147483648 then none else
+  let bufs : WBufs := ⟨List.replicate n ⟨size, none⟩, none⟩
+  let okText := fun (_ : Unit) => ""
+  let r : Option (List Exch × Res Unit) :=
+    if fut == "write_all_vectored" then
+      some ((writeAllV bufs NO_OFFSET ks).1, (writeAllV bufs NO_OFFSET ks).2.map fun _ => ())
+    else if fut == "send_all_vectored" then
+      some ((sendAllV bufs 0 false ks).1, (sendAllV bufs 0 false ks).2.map fun _ => ())
+    else none
+  let r ← r
+  let handed := (r.1.map (·.res)).foldl (· + ·) 0
+  some (showExchs r.1 ++ showRes okText r.2 ++ [s!"input={n * size} handed={handed}"])
+
 /-- One op: `composite w …` (a writing future) or `composite r …` (a reading
 future); output = the requests with their results, then the final result. -/
 def stepLine (toks : List String) : List String :=
@@ -663,6 +685,7 @@ def stepLine (toks : List String) : List String :=
   | "composite" :: "w" :: rest => (stepW rest).getD ["bad-op"]
   | "composite" :: "r" :: rest => (stepR rest).getD ["bad-op"]
   | "composite" :: "whuge" :: rest => (stepWHuge rest).getD ["bad-op"]
+  | "composite" :: "wbig" :: rest => (stepWBig rest).getD ["bad-op"]
   | _ => ["bad-op"]
 
 end A10.Composite
